@@ -22,6 +22,13 @@ BOUNDS = {
 }
 OUTSIDE = ["widths > N", "3 axes", "periodic given as a partial dict (statement does not fix the unnamed axes)", "float rounding"]
 ASSUMPTIONS = ["input data finite"]
+SWEEPS = {"nan": 5}
+
+
+def sweep_applies(cfg, flavor):
+    return cfg.get("kind") == "geo"
+
+
 AXES = {"X": ("center", "left", "outer"), "Y": ("center", "right")}
 
 P_SPELL = {"True": True, "False": False, "[]": [], "[X]": ["X"], "[X,Y]": ["X", "Y"], "{X:T,Y:F}": {"X": True, "Y": False}}
